@@ -63,6 +63,7 @@ A = "refs/heads/a"
 AB = "refs/heads/a/b"
 B = "refs/heads/b"
 C_ = "refs/heads/c"
+C2 = "refs/heads/c2"   # shares a *string* prefix with refs/heads/c
 T = "refs/tags/t"
 TX = "refs/tags/t/x"
 RM = "refs/remotes/o/m"
@@ -71,7 +72,7 @@ L1 = "refs/heads/l1"
 L2 = "refs/heads/l2"
 HEAD = "HEAD"
 OUTSIDE = "refs/heads/outside"
-PLAIN = [A, AB, B, C_, T, TX, RM]
+PLAIN = [A, AB, B, C_, C2, T, TX, RM]
 ALL = [HEAD, *PLAIN, S1, L1, L2]
 BAD_NAMES = ["refs/heads/a..b", "refs/heads/.hid", "refs/heads/x.lock",
              "refs/heads/sp ace", "refs/heads/", "refs//double",
@@ -123,13 +124,13 @@ def gen_plan(seed, tier):
     for _ in range(n):
         r = rng.random()
         name = rng.choice(ALL if not restricted else
-                          [HEAD, A, B, C_, T, RM, S1])
+                          [HEAD, A, B, C_, C2, T, RM, S1])
         # the dict and reftable backends are only promised to agree on
         # sequences that do not write through symbolic refs (creating,
         # re-pointing and deleting the symbolic ref itself is not a write
         # *through* it)
         wname = name if not restricted or name not in (HEAD, S1) else \
-            rng.choice([A, B, C_, T, RM])
+            rng.choice([A, B, C_, C2, T, RM])
         if r < 0.16:
             ops.append({"k": "set", "name": wname, "new": fresh()})
         elif r < 0.28:
@@ -787,6 +788,22 @@ def run_plan(plan):
             if sub != wsub:
                 viol(f"model-mismatch/keys-base/{who}",
                      f"{desc}: {sorted(sub)} vs {sorted(wsub)}")
+            # a base is a path prefix, not a string prefix: refs/heads/c2 is
+            # not under refs/heads/c, refs/remotes/o2/x not under .../o
+            for base in (C_, "refs/remotes/o", A):
+                try:
+                    sub = {k.decode() for k in c.keys(base.encode())}
+                except Exception as e:  # noqa: BLE001
+                    viol(f"keys-raised/{who}/{type(e).__name__}",
+                         f"{desc}: keys({base}): {e!r}")
+                    return
+                wsub = {k[len(base) + 1:] for k in m.d
+                        if k.startswith(base + "/")}
+                if sub != wsub:
+                    viol(f"model-mismatch/keys-base-prefix/{who}",
+                         f"{desc}: keys({base}) = {sorted(sub)}, model "
+                         f"{sorted(wsub)}")
+                    break
             if any(nm in m.d and os.path.lexists(os.path.join(
                     gitdir, nm)) for nm in plan["init_packed"]):
                 stats["probe:loose_over_packed"] = 1
